@@ -286,6 +286,31 @@ def _():
     return [(t, [hyp] + h, g) for (t, h, g) in word_ind(P)]
 
 
+@proof('iso', 'iso-witness')
+def _():
+    h = Const('h_', T.HMap); D1, D2 = Consts('D1_ D2_', T._DFAs)
+    d1, d2 = SV(REC('DFA'), D1), SV(REC('DFA'), D2)
+    choice = Implies(T.iso_pred(h, d1, d2), T.iso_pred(T.isofn(D1, D2), d1, d2))          # instance of isofn-choice
+    return [('inst', [choice, T.iso_map_b(h, D1, D2) == T.iso_pred(h, d1, d2), T.iso_b(D1, D2) == T.iso_pred(T.isofn(D1, D2), d1, d2), T.iso_map_b(h, D1, D2)], T.iso_b(D1, D2))]
+
+
+@proof('iso', 'rel_of-set-true')
+def _():
+    R, R2 = Consts('R_ R2_', T.RelA); k = Const('k_', T.Key2); j = Const('j_', T.Key2)
+    lhs = T.rel_of(z3.Store(R, k, True), z3.Store(R2, k, True)); rhs = z3.Store(T.rel_of(R, R2), k, True)
+    pw = ForAll([j], Select(lhs, j) == Select(rhs, j))
+    return [('pointwise', [], pw), ('ext', [pw], lhs == rhs)]
+
+
+@proof('iso', 'iso-rel-witness')
+def _():
+    R = Const('R_', T.RelA); D1, D2 = Consts('D1_ D2_', T._DFAs)
+    d1, d2 = SV(REC('DFA'), D1), SV(REC('DFA'), D2)
+    h = T.fn_of_rel(R)
+    choice = Implies(T.iso_pred(h, d1, d2), T.iso_pred(T.isofn(D1, D2), d1, d2))          # instance of isofn-choice
+    return [('inst', [choice, T.iso_rel_b(R, D1, D2) == T.iso_pred(h, d1, d2), T.iso_b(D1, D2) == T.iso_pred(T.isofn(D1, D2), d1, d2), T.iso_rel_b(R, D1, D2)], T.iso_b(D1, D2))]
+
+
 def int_ind(P, lo=0):
     """induction on an integer >= lo: P(lo) and (j >= lo and P(j)) => P(j+1)"""
     j = fresh_z('j', z3.IntSort())
